@@ -758,6 +758,16 @@ func TestPoolLaggingCertification(t *testing.T) {
 		if pc <= c {
 			return // finality did not pass the change (parameter sets with very high thresholds); nothing to test
 		}
+		starts := false
+		for _, h := range n.ParamHeights() {
+			starts = starts || h == c+1
+		}
+		if !starts {
+			// the drawn "change" equals the parameters in force (same validators, weights and thresholds): the engine stores
+			// nothing for c+1, so height c is an ordinary height whose commits the pool may drop once they are old
+			evid.R.Label("pool-lagging:no-op-change-skipped", 1)
+			return
+		}
 		p, err := n.CurrentParams(c)
 		hd, err2 := n.Chain.DataAccess().GetBlockHeaderByHeight(c)
 		if err != nil || err2 != nil {
